@@ -212,6 +212,12 @@ impl Report {
         let tmp = format!("{path}.tmp");
         std::fs::write(&tmp, serde_json::to_string_pretty(&ev).unwrap()).expect("write evidence");
         std::fs::rename(&tmp, &path).expect("rename evidence");
+        if self.tier == "thorough" {
+            // keep the deep run's record next to the per-change one (which the next quick run overwrites)
+            let tdir = format!("{}/evidence_thorough", out_dir());
+            let _ = std::fs::create_dir_all(&tdir);
+            let _ = std::fs::copy(&path, format!("{tdir}/{}.json", self.id));
+        }
 
         let out = std::io::stdout();
         let mut out = out.lock();
